@@ -7,7 +7,7 @@ use crate::entry::{Call, Entry, Resp};
 use crate::harness::{json_diff, run_call, RunOut};
 use crate::models::gamespy::{Gs1Server, Gs1State, Gs3Server, Gs3State};
 use crate::models::unreal2::{self as um, Unreal2Server, Unreal2State};
-use crate::models::valve::{self as vm, Kind, KindEnc, Split, ValveServer, ValveState};
+use crate::models::valve::{Kind, KindEnc, Split, ValveServer, ValveState};
 use crate::prop::{CaseOut, Prop, Tier, Violation};
 use crate::tape::{Tape, CFG, DATA};
 use crate::world::{Proto, World};
